@@ -408,58 +408,78 @@ def forge (s : Sequence) (applyDelays applyFilters includetime : Bool) :
           | .error e => .error e
           | .ok forged => forged.mapM (s.filterEntry applyFilters)
 
+/-- one step of the delay loop of `_prepareForOutputting`: channel `x.1` of the element (a copy)
+    gets delay `x.2`.  A blueprint is delayed in place and stored again with `addBluePrint` (which
+    stores a copy and wipes the flags, which are then re-added); raw arrays are zero-padded at the
+    element's sample rate `sr`. -/
+def prepStep (sr : Val) (maxdelay : Rat) (cs : Dict Chan ChEntry) (x : Chan × Rat) : Except Err (Dict Chan ChEntry) :=
+  match Dict.get? cs x.1 with
+  | none => .error .key
+  | some ent =>
+    match ent.data with
+    | .bp b =>
+      match (Element.delayBP b x.2 maxdelay).toExcept with
+      | .error er => .error er
+      | .ok b' =>
+        if b'.segs.isEmpty then .error .value
+        else .ok (Dict.upsert cs x.1 { data := .bp b'.copy, flags := ent.flags })
+    | .arr a s =>
+      match sr with
+      | .num srq =>
+        .ok (Dict.upsert cs x.1 { ent with data := .arr (a.map (fun (k, xs) =>
+          (k, Element.padArr (rhe (x.2 * srq)).toNat (rhe ((maxdelay - x.2) * srq)).toNat xs))) s })
+      | _ => .error .type
+    | .broken => .error .key
+
 /-- the delay part of `_prepareForOutputting` for one element; `chans` is element(1)'s channel
     list, `delays` the matching delays -/
 def prepDelayElement (sr : Val) (e : Element) (chans : List Chan) (delays : List Rat) :
-    Except Err Element := do
-  let maxdelay := maxR delays
-  let chansD ← (chans.zip delays).foldlM (fun (cs : Dict Chan ChEntry) (ch, delay) => do
-    match Dict.get? cs ch with
-    | none => throw Err.key
-    | some ent =>
-      match ent.data with
-      | .bp b =>
-        let r := Element.delayBP b delay maxdelay
-        match r.err with
-        | some er => throw er
-        | none =>
-          -- element.addBluePrint(chan, blueprint) stores a copy and wipes the flags, which are
-          -- then re-added
-          if r.st.segs.isEmpty then throw Err.value
-          pure (Dict.upsert cs ch { data := .bp r.st.copy, flags := ent.flags })
-      | .arr a s =>
-        match sr with
-        | .num srq =>
-          pure (Dict.upsert cs ch { ent with data := .arr (a.map (fun (k, xs) =>
-            (k, Element.padArr (rhe (delay * srq)).toNat (rhe ((maxdelay - delay) * srq)).toNat xs))) s })
-        | _ => throw Err.type
-      | .broken => throw Err.key) e.chans
-  pure { e with chans := chansD }
+    Except Err Element :=
+  ((chans.zip delays).foldlM (prepStep sr (maxR delays)) e.chans).map (fun c => { e with chans := c })
 
-/-- `Sequence._prepareForOutputting()`: per position the forged, delayed, filter-annotated channels -/
-def prepareForOutputting (s : Sequence) : Except Err (List (Dict Chan ChOutF)) := do
-  if !(← s.checkConsistency) then throw .value
-  let chans ← match Dict.get? s.data 1 with
-    | some en => en.channels
-    | none => throw Err.key
-  let seqlen := s.data.length
-  let skeys := sortBy (fun a b => decide (a ≤ b)) (Dict.keys s.sequencing)
-  if skeys ≠ oneTo seqlen then throw .value
-  for ch in chans do
-    if !(Dict.has s.awgspecs (keyOf ch "amplitude")) then throw .key
-  let delays ← chans.mapM s.delayOf
-  let els ← (List.range seqlen).mapM (fun (i : Nat) => do
+/-- the delayed copy of the element at every position (a subsequence has no channel store:
+    KeyError / AttributeError) -/
+def prepElements (s : Sequence) (chans : List Chan) (delays : List Rat) : Except Err (List Element) :=
+  (List.range s.data.length).mapM (fun (i : Nat) =>
     match Dict.get? s.data ((i + 1 : Nat) : Int) with
     | some (.el e) =>
       -- raw arrays are padded at the element's own sample rate (`data[pos].SR`), as `_applyDelays` does
-      prepDelayElement (← e.getSR) e chans delays
-    | some (.sub _) => throw Err.key      -- a subsequence has no channel store (KeyError / AttributeError)
-    | none => throw Err.key)
-  let forged ← els.mapM (fun (e : Element) => e.getArrays false)
-  -- filters, looked up for the channels of element(1)
-  forged.mapM (fun (d : Dict Chan Element.ChOut) => d.mapM (fun (ch, o) => do
-    if chans.contains ch then pure (ch, ({ out := o, filt := ← s.filterOf ch } : ChOutF))
-    else pure (ch, ({ out := o, filt := none } : ChOutF))))
+      match e.getSR with
+      | .error er => .error er
+      | .ok sr => prepDelayElement sr e chans delays
+    | some (.sub _) => .error .key
+    | none => .error .key)
+
+/-- the filter loop of `_prepareForOutputting`: looked up for the channels of element(1) -/
+def prepFilters (s : Sequence) (chans : List Chan) (d : Dict Chan Element.ChOut) : Except Err (Dict Chan ChOutF) :=
+  d.mapM (fun x =>
+    if chans.contains x.1 then (s.filterOf x.1).map (fun f => (x.1, ({ out := x.2, filt := f } : ChOutF)))
+    else .ok (x.1, ({ out := x.2, filt := none } : ChOutF)))
+
+/-- `Sequence._prepareForOutputting()`: per position the forged, delayed, filter-annotated channels -/
+def prepareForOutputting (s : Sequence) : Except Err (List (Dict Chan ChOutF)) :=
+  match s.checkConsistency with
+  | .error e => .error e
+  | .ok false => .error .value
+  | .ok true =>
+    match Dict.get? s.data 1 with
+    | none => .error .key
+    | some en =>
+      match en.channels with
+      | .error e => .error e
+      | .ok chans =>
+        if sortBy (fun a b => decide (a ≤ b)) (Dict.keys s.sequencing) ≠ oneTo s.data.length then .error .value
+        else if chans.any (fun ch => !(Dict.has s.awgspecs (keyOf ch "amplitude"))) then .error .key
+        else
+          match chans.mapM s.delayOf with
+          | .error e => .error e
+          | .ok delays =>
+            match s.prepElements chans delays with
+            | .error e => .error e
+            | .ok els =>
+              match els.mapM (fun (e : Element) => e.getArrays false) with
+              | .error e => .error e
+              | .ok forged => forged.mapM (s.prepFilters chans)
 
 /-! #### waveforms as delivered by the output methods -/
 
